@@ -617,3 +617,68 @@ func isGrouperSig(t types.Type) bool {
 	}
 	return strings.HasSuffix(sg.Params().At(0).Type().String(), "AggregatedLabels") && strings.HasSuffix(sg.Results().At(0).Type().String(), "AggregatedLabels")
 }
+
+// ruleSampleLabelSet: a sample's series is the label set of the entry it was taken from:
+// sampleIterator.Next stores into the sample exactly newAggregatedLabels(that entry's set, by,
+// without) - built for this entry, on every emitting path (never a set remembered from another entry).
+func ruleSampleLabelSet(r *Run) {
+	p := r.P
+	ep := modPath + "/" + enginePkg
+	fn := p.Method(enginePkg, "sampleIterator", "Next")
+	o := r.Ob("PV-PAIR", "logqlengine.(*sampleIterator).Next label set", "the label set stored in a sample is built from the labels of the entry that was just read (newAggregatedLabels(e.set, by, without)), for every sample")
+	if fn == nil || len(fn.Params) != 2 {
+		o.Fail("-", "method not found")
+		return
+	}
+	// the entry cell that iter.Next fills
+	var entryCell ssa.Value
+	for _, c := range callsIn(fn) {
+		if call, ok := c.(*ssa.Call); ok && invokeIs(call, "Next") && len(call.Call.Args) == 1 {
+			entryCell = call.Call.Args[0]
+		}
+	}
+	if entryCell == nil {
+		o.Fail(r.pos(fn.Pos()), "the source iterator's Next call was not found")
+		return
+	}
+	n, bad := 0, false
+	for _, gf := range funcGroup(fn) {
+		allInstrs(gf, func(in ssa.Instruction) {
+			st, ok := in.(*ssa.Store)
+			if !ok {
+				return
+			}
+			f, base, ok := fieldNameOf(st.Addr)
+			if !ok || f != "Set" || originValueIn(base, funcGroup(fn)) != ssa.Value(fn.Params[1]) {
+				return
+			}
+			n++
+			good := false
+			for _, lv := range valueLeaves(stripTypeOnly(st.Val)) {
+				lv = stripTypeOnly(lv)
+				c, ok := lv.(*ssa.Call)
+				if !ok || !callIs(c, ep, "newAggregatedLabels") || len(c.Call.Args) != 3 {
+					good = false
+					bad = true
+					o.Fail(r.pos(st.Pos()), "the sample's label set is %s, not a set built from the entry that was just read", describe(lv, 1))
+					continue
+				}
+				fl, b2, ok := loadOfField(unspill(c.Call.Args[0]))
+				if !ok || fl != "set" || b2 != entryCell {
+					bad = true
+					o.Fail(r.pos(c.Pos()), "newAggregatedLabels is given %s, not the set of the entry that was just read", describe(c.Call.Args[0], 1))
+					continue
+				}
+				good = true
+			}
+			_ = good
+		})
+	}
+	if n == 0 {
+		bad = true
+		o.Fail(r.pos(fn.Pos()), "the sample's Set field is never written")
+	}
+	if !bad {
+		o.OK("%d write(s): s.Set = newAggregatedLabels(e.set, i.by, i.without)", n).At(r.pos(fn.Pos()))
+	}
+}
